@@ -154,3 +154,26 @@ def rule_literal_path(prog, roles, em):
                     obs.append(bad('LITPATH', key, 'the evaluated number literal is not the literal\'s own Decimal (%r)' % o, b.where(bb), body=b.name))
     obs.append(floor('LITPATH', 'literal-eval-sites', n3, 1, 'number literals are evaluated somewhere'))
     return obs
+
+
+INT_ARITH = re.compile(r'^core::num::<impl (i|u)(8|16|32|64|128|size)>::(checked_|wrapping_|saturating_|overflowing_)?(add|sub|mul|div|rem|pow|neg)\w*$')
+
+def rule_intfast(bodies):
+    """decimal arithmetic is not routed through primitive integers: in a body that holds Decimal
+    operands, no primitive-integer add/sub/mul/div (checked or not)"""
+    obs = []
+    for b in bodies:
+        if not any(l['ty'] == DEC for l in b.locals[1:b.arg_count + 1]) and not any(l['ty'] == DEC for l in b.locals):
+            continue
+        k = 0
+        for c in b.live_calls:
+            if INT_ARITH.match(c.callee or ''):
+                obs.append(bad('NUMPATH', 'NUMPATH|intarith|%s|%s|#%d' % (b.name, c.callee.split('::')[-1], k), 'primitive integer arithmetic (%s) in %s, which computes on Decimal operands: results outside the integer range are lost / reported as overflow although the decimal could hold them' % (c.callee.split('::')[-1], b.name), c.where(), body=b.name, bb=c.bb))
+                k += 1
+        for bb, i, pl, rv in b.assigns():
+            if rv['k'] == 'binop' and rv['op'] in ('Add', 'Sub', 'Mul', 'Div', 'Rem', 'AddWithOverflow', 'SubWithOverflow', 'MulWithOverflow') and re.match(r'^(i|u)(8|16|32|64|128)$', rv.get('aty', '')) and not (rv['a']['k'] == 'const' and rv['b']['k'] == 'const'):
+                obs.append(bad('NUMPATH', 'NUMPATH|intarith|%s|%s|#%d' % (b.name, rv['op'], k), 'primitive integer %s in %s, which computes on Decimal operands' % (rv['op'], b.name), b.where(bb), body=b.name, bb=bb))
+                k += 1
+    if not obs:
+        obs.append(ok('NUMPATH', 'NUMPATH|intarith', 'no primitive-integer arithmetic in any body that holds Decimal operands'))
+    return obs
